@@ -540,6 +540,15 @@ func (e *specEnv) evalCall(n ECall) Val {
 		key := exprString(n.Args[0])
 		_ = key
 		e.fail("held() not supported in this position")
+	case "bytes":
+		// bytes(b): the contents of a byte slice as a string value (uninterpreted in terms of the content array)
+		v := e.eval(n.Args[0])
+		if v.Sort != "Slice" || e.st == nil {
+			e.fail("bytes() of non-slice")
+		}
+		w.declUF("bytes2str", "(declare-fun bytes2str ((Array Int Int) Int Int) String)")
+		cls := e.st.elemClass(types.Typ[types.Uint8])
+		return Val{S: "(bytes2str (select " + e.heapTerm(cls) + " (sarr " + v.S + ")) (soff " + v.S + ") (slen " + v.S + "))", Sort: "String"}
 	case "hex":
 		// hex(b): lower-case hex rendering of a byte slice (same uninterpreted function fmt.Sprintf("%0x") uses)
 		v := e.eval(n.Args[0])
